@@ -1,0 +1,51 @@
+//go:build verif
+
+// Verification hooks for property C18 (build tag "verif"): thin exported
+// wrappers around the unexported FS-authentication functions and constants,
+// used by the /verif correspondence harness.  Add-only; nothing here is
+// compiled without the tag.
+package security
+
+import (
+	"context"
+	"net"
+)
+
+// VerifFSAuthBaseDir exposes fsAuthBaseDir.
+const VerifFSAuthBaseDir = fsAuthBaseDir
+
+// VerifFSRegexSources returns the source text of the three FS-auth regular
+// expressions: local leaf, remote leaf, random suffix.
+func VerifFSRegexSources() (local, remote, suffix string) {
+	return fsAuthLocalLeafRE.String(), fsAuthRemoteLeafRE.String(), fsSuffixRE.String()
+}
+
+// VerifValidateFSAuthPath exposes validateFSAuthPath.
+func VerifValidateFSAuthPath(dirPath string, remote bool, peerAddr net.Addr) (string, error) {
+	return validateFSAuthPath(dirPath, remote, peerAddr)
+}
+
+// VerifFSAddrLeaf exposes fsAddrLeaf.
+func VerifFSAddrLeaf(leaf string, remote bool) (ip, port string, ok bool) {
+	return fsAddrLeaf(leaf, remote)
+}
+
+// VerifVerifyFSPathEndpoint exposes verifyFSPathEndpoint.
+func VerifVerifyFSPathEndpoint(nameIP, namePort string, peerAddr net.Addr) error {
+	return verifyFSPathEndpoint(nameIP, namePort, peerAddr)
+}
+
+// VerifFSAuthClient runs the client side of FS authentication on a's stream.
+func (a *Authenticator) VerifFSAuthClient(ctx context.Context, remote bool) error {
+	neg := &SecurityNegotiation{ClientConfig: a.config, ServerConfig: a.config, IsClient: true}
+	return a.performFSAuthentication(ctx, neg, remote)
+}
+
+// VerifFSAuthServer runs the server side of FS authentication on a's stream and
+// returns the negotiation (User = the identity recorded) with the error.
+func (a *Authenticator) VerifFSAuthServer(ctx context.Context, remote bool) (*SecurityNegotiation, error) {
+	cfg := *a.config
+	neg := &SecurityNegotiation{ClientConfig: &cfg, ServerConfig: &cfg, IsClient: false}
+	err := a.performFSAuthentication(ctx, neg, remote)
+	return neg, err
+}
